@@ -112,13 +112,13 @@ fn clone_points(data: &[u8], whole: &[Ev]) -> Option<(String, String)> {
     }
 }
 
-fn reference(data: &[u8]) -> Vec<Ev> {
+fn reference(data: &[u8]) -> (Vec<Ev>, Vec<usize>) {
     let mut r = RefVt::new(Policy::Consume);
     if CORE {
         r.osc_cap = Some(OSC_CAP);
     }
     r.feed(data);
-    r.ev
+    (r.ev, r.osc16)
 }
 
 fn ev_hash(ev: &[Ev]) -> u64 {
@@ -163,23 +163,23 @@ fn evaluate(data: &[u8]) -> (Vec<Ev>, bool, Option<(String, String)>) {
     if let Some(bad) = clone_points(data, &got) {
         return (got, false, Some(bad));
     }
-    let want = reference(data);
+    let (want, want_osc16) = reference(data);
     let (fill, sep_at_full) = osc_fill(data);
     let fits = fill <= OSC_CAP;
     let diff = |a: &[Ev], b: &[Ev]| {
         let n = a.iter().zip(b.iter()).position(|(x, y)| x != y).unwrap_or(a.len().min(b.len()));
         format!("event {n}: observed {:?}, expected {:?} (lengths {} / {})", a.get(n), b.get(n), a.len(), b.len())
     };
-    if got != want {
+    if !refmodel::vt::events_agree(&got, &want, &want_osc16) {
         return (got.clone(), fits && !sep_at_full, Some(("c20:events".into(), diff(&got, &want))));
     }
     if fits && CORE {
-        let unlimited = {
+        let (unlimited, unlimited_osc16) = {
             let mut r = RefVt::new(Policy::Consume);
             r.feed(data);
-            r.ev
+            (r.ev, r.osc16)
         };
-        if got != unlimited {
+        if !refmodel::vt::events_agree(&got, &unlimited, &unlimited_osc16) {
             let sig = if sep_at_full { SIG_F15 } else { "c20:in-limit-differs" };
             return (got.clone(), fits && !sep_at_full, Some((sig.into(), format!("every OSC payload fits the {OSC_CAP}-byte buffer, yet this build differs from the unlimited configurations: {}", diff(&got, &unlimited)))));
         }
